@@ -27,11 +27,11 @@ CHECKS = {
  "C09": ("model-based PBT of AtomicWeak cell programs (CAS outcome rules via ptr_eq, weak-count conservation)", "6/C09",
          "Exploration: as C08 for AtomicWeak, with expected WeakSnapshots from all three sources named in the property."),
  "C10": ("model-based PBT of bulk constructors with generated release orders (count conservation, O-own, O-leak)", "6/C10",
-         "Exploration: sequential programs over new_many/new_many_iter/weak_many; pointers must refer to the receiver, counts equal owners after every op, object destructed only after the last owner and reclaimed at quiescence."),
+         "Exploration: sequential programs over new_many/new_many_iter/weak_many; pointers must refer to the receiver, counts equal owners after every op, object destructed only after the last owner and reclaimed at quiescence; plus new_many_iter with counts 2^k+d up to 2^64 (exact behaviour or clean rejection by panic)."),
  "C06": ("metamorphic latency bound over generated structures (PBT, sequential)", "6/C06",
          "Exploration: generated chains/trees/combs with generated stamp bands, ages, flush delays, epoch alignments and externally held nodes; the number of epoch advances until the last destructor must stay below a bound that grows with n/1024 only, and held sub-structures must survive intact."),
  "C07": ("PBT over structure size/shape/stack size with crash detection in forked children", "6/C07",
-         "Exploration: structures of up to 300 000 (thorough 4 000 000) nodes reclaimed on threads with 8 MiB..512 KiB stacks; the child must exit normally and every node must be destructed."),
+         "Exploration: structures of up to 300 000 (thorough 4 000 000) nodes reclaimed on threads with 8 MiB..64 KiB stacks; the child must exit normally and every node must be destructed. Open known finding: stacks of 128 KiB and less overflow (KNOWN-FINDING line, exit 0); any crash with a larger stack is a violation."),
  "C11": ("PBT + exhaustive sub-space enumeration of tagged-pointer arithmetic; API round-trips on real objects", "6/C11",
          "Exploration: direct formulas for tag/as_raw/high_tag/ptr_eq/is_null/formatting over generated words at 7 alignments (one sub-space enumerated completely) and public-API round-trips on real objects written at different epochs."),
  "C12": ("PBT + exhaustive enumeration of count-word and modular-epoch arithmetic; end-to-end decision observation", "6/C12",
@@ -45,13 +45,13 @@ CHECKS = {
  "C15": ("model-based PBT with per-closure execution counters, checksummed captures and thread exits at generated points", "6/C15",
          "Exploration: closures of generated size/alignment (inline and boxed storage), bag fill levels 0..130, threads exiting with pending garbage, private collectors dropped with garbage pending; each deferred function runs at most once at any time and exactly once within a bounded number of rounds."),
  "C16": ("model-based PBT of guard nesting/reactivation against the participant's real pin state", "6/C16",
-         "Exploration: nested guards dropped in any order, reactivate/reactivate_after incl. panicking closures and use inside deferred functions; model pinned <=> live guards compared with the participant's state after every op."),
+         "Exploration: nested guards dropped in any order, reactivate/reactivate_after incl. panicking closures and use inside deferred functions, guards created by a deferred function that outlive it (also followed by long disposal passes); model pinned <=> live guards compared with the participant's state after every op, and the announced epoch must not move under a live guard."),
  "C17": ("history-based PBT: linearizability search (Wing-Gong) of scheduled queue histories against a FIFO-with-conditional-pop specification", "6/C17",
          "Exploration: generated 2-4 thread histories on the internal queue under generated preemptions; rejected only if no linearisation exists; plus conservation and no-duplicate checks."),
  "C18": ("history-based PBT: membership-interval containment of scheduled list traversals; finalize-exactly-once accounting", "6/C18",
-         "Exploration: generated insert/delete/traverse histories on the internal list under generated preemptions; a non-stalled traversal must have visited every element registered before it began and not removed before it ended."),
+         "Exploration: generated insert/delete/traverse histories on the internal list under generated preemptions; a non-stalled traversal must have visited every element registered before it began and not removed before it ended. On the real registry: thread exits under traversal (registry-churn) and staged retirement of ~200-360 extra participants under a scan that seals several bags (E3), with freed records poisoned so that touching one kills the case."),
  "C20": ("PBT over thread-local destruction orders and API actions inside destructors, in forked children", "6/C20",
-         "Exploration: generated thread lifecycles (TLS initialisation order relative to the participant handle, destructor action lists, pending deferrals at exit); the thread must exit normally and a surviving thread must reclaim everything it produced."),
+         "Exploration: generated thread lifecycles (TLS initialisation order relative to the participant handle, destructor action lists, pending deferrals at exit; destructors releasing 2^10..2^20 pointers after the handle is gone); the thread must exit normally and a surviving thread (main / 2 MiB / 512 KiB / 256 KiB stack) must reclaim everything it produced."),
 }
 
 NOT_YET = {
